@@ -327,6 +327,12 @@ inductive View (ν α : Type) where
   /-- `TensorRefMatrix<T, MatrixRefTensor<T, S>, N>`: a 2-dimensional tensor view seen as a matrix
       (`MatrixRefTensor`, the only matrix source that can be column major) seen as a tensor again -/
   | matrixOf (source : View ν α) (rowName columnName : ν)
+  /-- `TensorMap { source, f }` (views/map.rs; crate-private, `TensorRef` only): exposes
+      `f(source[idx])`.  Shape, index mapping and layout are the source's; the element handed out
+      is `f` of the element in the designated cell (the library's one use is the projection
+      `|(x, _)| x` in `Display for RecordTensor`).  It has no `TensorMut` implementation, so
+      `View.write` through it has no counterpart in the code. -/
+  | tmap (source : View ν α)
   /-- `TensorRange { source, range }` -/
   | range (source : View ν α) (range : List IndexRange)
   /-- `TensorMask { source, mask }` -/
@@ -360,6 +366,7 @@ def shape : View ν α → Shape ν
   | .matrixOf s r c =>
     -- `view_rows = source.view_shape()[0].1`, `view_columns = source.view_shape()[1].1`
     [(r, (s.shape.getD 0 (default, 0)).2), (c, (s.shape.getD 1 (default, 0)).2)]
+  | .tmap s => s.shape
   | .range s rs => rangeShape s.shape rs
   | .mask s ms => maskShape s.shape ms
   | .index s p => indexShape s.shape p
@@ -405,6 +412,7 @@ def get : View ν α → List Nat → Outcome (Option Cell)
   | .matrixOf s _ _, indexes =>
     -- `self.source.try_get_reference(indexes[0], indexes[1])` = `source.get_reference([row, column])`
     s.get [indexes.getD 0 0, indexes.getD 1 0]
+  | .tmap s, indexes => s.get indexes      -- `Some((self.f)(self.source.get_reference(indexes)?))`
   | .range s rs, indexes => obind (mapIndexesByRange indexes rs) fun mapped => s.get mapped
   | .mask s ms, indexes =>
     match mapIndexesByMaskChecked indexes ms with
@@ -457,6 +465,7 @@ def getUnchecked : View ν α → List Nat → Outcome Cell
   | .tensor id t, indexes => tensorGetUnchecked id t indexes
   | .matrix id m _ _, indexes => matrixGetUnchecked id m indexes
   | .matrixOf s _ _, indexes => s.getUnchecked [indexes.getD 0 0, indexes.getD 1 0]
+  | .tmap s, indexes => s.getUnchecked indexes
   | .range s rs, indexes =>
     match mapIndexesByRange indexes rs with
     | .ok (some mapped) => s.getUnchecked mapped
@@ -533,6 +542,7 @@ def layout : View ν α → Outcome (DataLayout ν)
     match s.layout with
     | .ok sourceLayout => .ok (tensorRefMatrixLayout r c (matrixRefTensorLayout s.shape sourceLayout))
     | .panic k => .panic k
+  | .tmap s => s.layout
   | .range _ _ => .ok .nonLinear
   | .mask _ _ => .ok .nonLinear
   | .index _ _ => .ok .nonLinear
@@ -558,6 +568,7 @@ def leaves : View ν α → List (Nat × List α)
   | .tensor id t => [(id, t.data)]
   | .matrix id m _ _ => [(id, m.data)]
   | .matrixOf s _ _ => s.leaves
+  | .tmap s => s.leaves
   | .range s _ => s.leaves
   | .mask s _ => s.leaves
   | .index s _ => s.leaves
@@ -594,6 +605,7 @@ def setCell (c : Cell) (x : α) : View ν α → View ν α
   | .matrix id m r cn =>
     if id = c.1 then .matrix id { m with data := m.data.set c.2 x } r cn else .matrix id m r cn
   | .matrixOf s r cn => .matrixOf (setCell c x s) r cn
+  | .tmap s => .tmap (setCell c x s)
   | .range s p => .range (setCell c x s) p
   | .mask s p => .mask (setCell c x s) p
   | .index s p => .index (setCell c x s) p
@@ -828,6 +840,33 @@ def setNames : View ν α → List ν → View ν α × Outcome Unit
 def getNames : View ν α → Option (List ν)
   | .rename _ dimensions => some dimensions
   | _ => none
+
+/-- the sources an adaptor owns: what `source()` / `source_ref()` (`sources()` / `sources_ref()`
+    for stack and chain) hand out; leaves have none, `TensorRange`, `TensorMask` and
+    `TensorRefMatrix` offer no accessor -/
+def sources : View ν α → List (View ν α)
+  | .tensor _ _ => []
+  | .matrix _ _ _ _ => []
+  | .matrixOf _ _ _ => []
+  | .tmap _ => []        -- crate-private, its accessors are dead code
+  | .range _ _ => []     -- `TensorRange` / `TensorMask` offer no accessor
+  | .mask _ _ => []
+  | .index s _ => [s]
+  | .expansion s _ => [s]
+  | .rename s _ => [s]
+  | .reverse s _ => [s]
+  | .access s _ => [s]
+  | .transpose s _ => [s]
+  | .stack ss _ => ss
+  | .chain ss _ => ss
+
+/-- `TensorView::length_of` / `dimensions::length_of` -/
+def lengthOf (shape : Shape ν) (dimension : ν) : Option Nat :=
+  (shape.find? fun d => decide (d.1 = dimension)).map (·.2)
+
+/-- `TensorView::last_index_of` / `dimensions::last_index_of`: `length.saturating_sub(1)` -/
+def lastIndexOf (shape : Shape ν) (dimension : ν) : Option Nat :=
+  (lengthOf shape dimension).map (· - 1)
 
 /-- the source behind `source_ref_mut` (`TensorRename`, `TensorReverse`) -/
 def sourceOf : View ν α → Option (View ν α)
